@@ -184,12 +184,13 @@ fn position_sets(k: usize) -> Vec<Vec<(u32, u32)>> {
 
 pub fn check(rep: &Report) {
     let t = crate::thorough(&rep.tier);
-    rep.rule("logical sheet = anchor {A1, AB6, ZZ100, XFA1048573} x every set of <= k cells in a 3x4 window x 22 cell kinds (+ optional second sheet); encoding = 11 variation points (prefix, implicit row/cell r, dimension absent/exact/too small/too large, target spelling, part-name case, stored/deflated, t=n, empty row elements, member order, relationship ids not in sheet order); per position set all choice vectors with <= d deviations from (number cells, default encoding), plus the full encoding product on single-cell sheets; non-trivial = at least one non-default choice; distinct = by file bytes");
+    rep.rule("logical sheet = anchor {A1, AB6, ZZ100, XFA1048573} x every set of <= k cells in a 3x4 window (quick: every third two-cell set) x 28 cell kinds (+ optional second sheet); encoding = 19 variation points (prefix, implicit row/cell r, dimension absent/exact/too small/too large, target spelling, part-name case, stored/deflated, t=n, empty row elements, member order, relationship ids not in sheet order); per position set all choice vectors with <= d deviations from (number cells, default encoding), plus the full encoding product on single-cell sheets; non-trivial = at least one non-default choice; distinct = by file bytes");
     rep.assume("generator emits only ECMA-376-legal variations listed in gen/xlsx.rs; r:-prefixed relationship ids; implicit r only where the cursor rule positions the element correctly");
     let kmax = if t { 3 } else { 2 };
     let dev = if t { 3 } else { 2 };
     let mut jobs: Vec<((u32, u32), Vec<(u32, u32)>)> = vec![];
-    for a in ANCHORS { for k in 0..=kmax { for p in position_sets(k) { jobs.push((a, p)); } } }
+    // quick: every third of the 66 two-cell position sets (in enumeration order); thorough: all of them
+    for a in ANCHORS { for k in 0..=kmax { for (i, p) in position_sets(k).into_iter().enumerate() { if !t && k == 2 && i % 3 != 0 { continue; } jobs.push((a, p)); } } }
     let stats = Mutex::new(Stats::default());
     let deadline = std::time::Instant::now() + std::time::Duration::from_secs(if t { 1500 } else { 40 });
     let skipped = std::sync::atomic::AtomicU64::new(0);
